@@ -167,6 +167,10 @@ def values (s : OMD K V) : Except Err (List V) :=
   | .error e => .error e
   | .ok l => .ok (l.map (·.2))
 
+/-- `todict()`: `{k: self[k] for k in self}`, as the list of its items in creation order -/
+def todict (s : OMD K V) : Except Err (List (K × V)) :=
+  mapE (fun k => match s.getitem k with | .error e => .error e | .ok v => .ok (k, v)) s.keys
+
 /-- `todict(multi=True)`: `{k: self.getlist(k) for k in self}` in dict order of creation -/
 def todictM (s : OMD K V) : List (K × List V) := s.keys.map fun k => (k, s.getlist k)
 
